@@ -801,7 +801,7 @@ def broken_theorems(ctx):
     """names of the generated obligations that no longer check (line numbers of the build errors -> theorem names)"""
     import os, re
     out = []
-    for rel in PROP_FILES:
+    for rel in PROP_FILES[:2]:           # (the source translator's file is mapped by py2lean.broken_obligations)
         path = os.path.join(common.LEAN_DIR, rel)
         try:
             src = open(path).read().split("\n")
